@@ -1089,9 +1089,11 @@ func TestC12(t *testing.T) {
 	c12Consistency(t, tr, w)
 	c12KillSwitch(t, tr, w)
 	c12Wasm(t, tr, w)
+	c12Entries(t, tr, w)
 	if thorough() {
 		c12DeliverTx(t, tr)
 	}
+	tr.Line("grd.end", "C12")
 }
 
 // c12DeliverTx (thorough tier): the same position-naming messages, SIGNED and pushed through the real BaseApp.DeliverTx
